@@ -1,7 +1,7 @@
 (* C04 model driver: evaluates the extracted ABFModel at floats on case lines from stdin.
-   Case:  ABF nd lower*nd width*nd nx*nd periodic*nd full min apply update cap maxf*nd szd same sub*nd nsteps
-              (x*nd e*nd o*nd boundary)*nsteps
-   Output (one line): per step "bin .. fbin .. cf .. tf .. af .. cnt .. sum .." joined by " ; ",
+   Case:  ABF nd lower*nd width*nd nx*nd periodic*nd full min apply update cap maxf*nd szd same sub*nd hidej nsteps
+              (x*nd e*nd o*nd j*nd boundary)*nsteps
+   Output (one line): per step "bin .. fbin .. cf .. tf .. af .. cnt .. sum .. go .." joined by " ; ",
    then " ; SPEC cnt .. sum .." = the per-bin count and minus the summed forces of the attributed samples
    computed by the specification function [attributed] on the trace. *)
 open Model
@@ -38,23 +38,28 @@ let () =
            let maxf = nflist nd in
            let szd = nb () in let same = nb () in
            let sub = List.init nd (fun _ -> nb ()) in
+           let hidej = nb () in
            let c = { c_nd = nat_of_int nd; c_lower = lower; c_width = width; c_nx = List.map z_of_int nx;
                      c_periodic = periodic; c_full = z_of_int full; c_min = z_of_int mn; c_apply = apply;
                      c_update = update; c_cap = cap; c_maxf = maxf; c_szd = szd; c_same_step = same;
-                     c_subtract = sub } in
+                     c_subtract = sub; c_hidej = hidej } in
            let nsteps = ni () in
            let steps = List.init nsteps (fun _ ->
-               let x = nflist nd in let e = nflist nd in let o = nflist nd in let b = nb () in
-               { i_x = x; i_e = e; i_o = o; i_boundary = b }) in
+               let x = nflist nd in let e = nflist nd in let o = nflist nd in let j = nflist nd in let b = nb () in
+               { i_x = x; i_e = e; i_o = o; i_j = j; i_boundary = b }) in
            let ixs = all_indices nx in
            let zs l = String.concat " " (List.map (fun z -> string_of_int (int_of_z z)) l) in
            let fs l = String.concat " " (List.map hex l) in
-           let grid cnt sum =
+           let grid0 cnt sum =
              Printf.sprintf "cnt %s sum %s"
                (String.concat " " (List.map (fun ix -> string_of_int (int_of_z (cnt (List.map z_of_int ix)))) ixs))
                (String.concat " " (List.map (fun ix ->
                     let v = sum (List.map z_of_int ix) in
                     fs (List.init nd (fun k -> vget fops v (nat_of_int k)))) ixs)) in
+           let grid cnt sum =
+             Printf.sprintf "%s go %s" (grid0 cnt sum)
+               (String.concat " " (List.map (fun ix ->
+                    fs (List.init nd (fun k -> grad_out fops cnt sum (List.map z_of_int ix) (nat_of_int k)))) ixs)) in
            let buf = Buffer.create 4096 in
            let s = ref (abf_init fops c) in
            let outs = ref [] in
@@ -70,7 +75,7 @@ let () =
            let scnt ix = z_of_int (List.length (samples_in ix att)) in
            let ssum ix = List.init nd (fun k ->
                -. (List.fold_left (fun acc v -> acc +. vget fops v (nat_of_int k)) 0.0 (samples_in ix att))) in
-           Buffer.add_string buf ("SPEC " ^ grid scnt ssum);
+           Buffer.add_string buf ("SPEC " ^ grid0 scnt ssum);
            print_string (Buffer.contents buf); print_newline ()
          | _ -> Printf.printf "?\n")
       end
